@@ -136,6 +136,18 @@ type RecMap struct {
 	N uint32
 }
 
+// PTree recurses through a repeated field of pointers, PRecMap through map values that are
+// pointers: the pointer codec of the type is looked up again while it is still being built.
+type PTree struct {
+	V    int32
+	Kids []*PTree
+}
+
+type PRecMap struct {
+	M map[string]*PRecMap
+	N uint32
+}
+
 // Hidden has an unexported field between two exported ones (the codec must
 // skip it for numbering and offsets).
 type Hidden struct {
@@ -177,6 +189,11 @@ func init() {
 	ks := leaf(KString)
 	register(&NamedInfo{Name: "RecMap", RT: reflect.TypeOf(RecMap{}), Under: &TypeDesc{K: KStruct, Name: "RecMap", Fields: []FieldDesc{
 		{Name: "M", Num: 1, T: TypeDesc{K: KMap, Key: &ks, Elem: &rm}}, {Name: "N", Num: 2, T: leaf(KUint32)}}}})
+	pt, prm := ptr(named("PTree")), ptr(named("PRecMap"))
+	register(&NamedInfo{Name: "PTree", RT: reflect.TypeOf(PTree{}), Under: &TypeDesc{K: KStruct, Name: "PTree", Fields: []FieldDesc{
+		{Name: "V", Num: 1, T: leaf(KInt32)}, {Name: "Kids", Num: 2, T: sl(pt)}}}})
+	register(&NamedInfo{Name: "PRecMap", RT: reflect.TypeOf(PRecMap{}), Under: &TypeDesc{K: KStruct, Name: "PRecMap", Fields: []FieldDesc{
+		{Name: "M", Num: 1, T: TypeDesc{K: KMap, Key: &ks, Elem: &prm}}, {Name: "N", Num: 2, T: leaf(KUint32)}}}})
 	register(&NamedInfo{Name: "Hidden", RT: reflect.TypeOf(Hidden{}), Under: &TypeDesc{K: KStruct, Name: "Hidden", Fields: []FieldDesc{
 		{Name: "A", Num: 1, T: leaf(KInt32)}, {Name: "B", Num: 2, T: leaf(KString)}}}})
 	register(&NamedInfo{Name: "Opt2", RT: reflect.TypeOf(Opt2{}), Under: &TypeDesc{K: KStruct, Name: "Opt2", Fields: []FieldDesc{
@@ -192,5 +209,5 @@ func init() {
 // ImplNames / StructNames partition the corpus.
 var (
 	ImplNames   = []string{"RawMessage", "Msg", "Custom16", "CustomS"}
-	StructNames = []string{"Rec", "Tree", "RecMap", "Hidden", "Opt2"}
+	StructNames = []string{"Rec", "Tree", "RecMap", "Hidden", "Opt2", "PTree", "PRecMap"}
 )
